@@ -57,6 +57,58 @@ func refDecodeByteVecs(data []byte, pairs bool) (items [][]byte, consumed int, m
 	return items, pos, maxDeclared, "ok"
 }
 
+// refDecodeLenientK1 is the strict decoder with exactly the deviation of known
+// finding C10-K1 (= C12-K1 of pkg/scale decodeBytes) switched on: a byte
+// string whose declared length runs past the end of the input while at least
+// one of its bytes is present is accepted, cut to the bytes present. Everything
+// else is strict. Since such a string swallows the rest of the input, decoding
+// only succeeds when it is the last string of the list. cut reports whether the
+// deviation was used.
+func refDecodeLenientK1(data []byte, pairs bool) (items [][]byte, cut bool, ok bool) {
+	n, plen, w := refCompactU32(data)
+	if w != "ok" {
+		return nil, false, false
+	}
+	pos := plen
+	total := uint64(n)
+	if pairs {
+		total *= 2
+	}
+	for i := uint64(0); i < total; i++ {
+		l, pl, w := refCompactU32(data[pos:])
+		if w != "ok" {
+			return nil, cut, false
+		}
+		pos += pl
+		rest := len(data) - pos
+		if uint64(rest) < uint64(l) {
+			if rest < 1 {
+				return nil, cut, false
+			}
+			cut = true
+			l = uint32(rest)
+		}
+		items = append(items, data[pos:pos+int(l)])
+		pos += int(l)
+	}
+	return items, cut, true
+}
+
+// c10BuildMap is the map whose spec root the host function has to return.
+func c10BuildMap(items [][]byte, ordered bool) *vcommon.OrdMap {
+	m := vcommon.NewOrdMap()
+	if ordered {
+		for i, v := range items {
+			m.Put(vcommon.CompactLen(uint64(i)), v)
+		}
+		return m
+	}
+	for i := 0; i+1 < len(items); i += 2 {
+		m.Put(items[i], items[i+1])
+	}
+	return m
+}
+
 type c10Input struct {
 	Ordered bool
 	UseV1Fn bool   // call ..._version_1 (no version argument; state version 0)
@@ -450,14 +502,28 @@ func c10Run(c *vcommon.Case, in c10Input) {
 	switch {
 	case wantFail != "":
 		wit["want"] = "0 (failure): " + wantFail
-		if ret != 0 {
-			cls := "accepted-undecodable"
-			if why == "ok" {
-				cls = "accepted-unknown-version"
-			}
-			c.Violation(cls, fmt.Sprintf("%s returned root %x, must fail: %s", fn, got, wantFail), wit)
-		} else {
+		switch {
+		case ret == 0:
 			c.Count("result_failure_as_required", 1)
+		case why == "ok":
+			c.Violation("accepted-unknown-version", fmt.Sprintf("%s returned root %x, must fail: %s", fn, got, wantFail), wit)
+		default:
+			// Known finding C10-K1 (deviation oracle): the strict decoder fails, the
+			// decoder with exactly the K1 deviation succeeds by cutting the last byte
+			// string, the version is known and the root is the spec root of the
+			// leniently decoded entries. Anything else stays a violation.
+			if litems, cut, lok := refDecodeLenientK1(in.Data, !in.Ordered); lok && cut && version <= 1 {
+				lroot := vcommon.SpecRoot(c10BuildMap(litems, in.Ordered), int(version))
+				if got == lroot {
+					wit["lenient_entries"] = len(litems)
+					c.Count("known_C10_K1_last_string_cut", 1)
+					c.Known("C10-K1", fmt.Sprintf("%s returned the root %x of the list with its last byte string cut to the bytes present instead of failing (%s)",
+						fn, got, wantFail), wit)
+					return
+				}
+				wit["lenient_root"] = vcommon.Hex(lroot[:])
+			}
+			c.Violation("accepted-undecodable", fmt.Sprintf("%s returned root %x, must fail: %s", fn, got, wantFail), wit)
 		}
 	case ret == 0:
 		wit["want"] = vcommon.Hex(want[:])
